@@ -308,7 +308,18 @@ def build():
                                                 Levenshtein().distance_bins.tolist() if hasattr(Levenshtein(), "distance_bins") else None])
     add("next_nearest_neighbors/3", "pure", lambda: dict(x="AB"), lambda a: prs.next_nearest_neighbors(a["x"], lambda y: prs.hamming_neighbors(y, alphabet="AB"), maxdistance=3))
     add("pc_joint/gap_token", "pure", lambda: dict(df=_dfg(), d2=_dfg().iloc[::-1]), lambda a: prs.pc_joint(a["df"], ["CDR3B", "v"], a["d2"], gap_token="|"))
+    # ---- sentinels: values that exist only under the default IEEE / NumPy error handling (inf, nan); a call that leaves the
+    #      process-wide floating-point error state or similar settings changed shows here
+    add("sentinel/renyi2_all_distinct", "pure", lambda: dict(df=pd.DataFrame(dict(CDR3B=["CASSF", "CASSY", "CAWF"]))), lambda a: prs.renyi2_entropy(a["df"], "CDR3B"))
+    add("sentinel/pc_single", "pure", lambda: dict(x=["CASSF"]), lambda a: prs.pc(a["x"]))
+    add("sentinel/powerlaw_simple_singletons", "pure", lambda: dict(c=[1, 1, 1]), lambda a: prs.powerlaw_mle_alpha(a["c"], method="simple"))
+    add("sentinel/pcDelta_no_pairs_in_bins", "pure", lambda: dict(s=["CASSF", "CAW"]), lambda a: prs.pcDelta(a["s"], bins=[10, 11]))
     # ---- calls that raise
+    add("raise/powerlaw_exact_reversed_bounds", "raising", lambda: dict(c=[1, 2, 3, 7]), lambda a: prs.powerlaw_mle_alpha(a["c"], bounds=[4.5, 1.5]))
+    add("raise/powerlaw_exact_zero_counts", "raising", lambda: dict(c=[0, 1, 2, 0, 5]), lambda a: prs.powerlaw_mle_alpha(a["c"], cmin=0))
+    add("raise/powerlaw_unknown_option", "raising", lambda: dict(c=[1, 2, 3, 7]), lambda a: prs.powerlaw_mle_alpha(a["c"], no_such_option=1))
+    add("raise/pcDelta_bad_metric", "raising", S, lambda a: prs.pcDelta(a["seqs"], metric="levenshtein"))
+    add("raise/hierarchical_bad_method", "raising", S, lambda a: prs.hierarchical_clustering(a["seqs"], linkage_kws=dict(method="no_such_method")))
     add("raise/nearest_neighbor_empty", "raising", lambda: dict(seqs=[]), lambda a: prs.nearest_neighbor(a["seqs"]))
     add("raise/kdtree_ncpu0", "raising", S, lambda a: prs.kdtree(a["seqs"], n_cpu=0))
     add("raise/standardize_no_df", "raising", dict, lambda a: prs.standardize_dataframe())
@@ -349,6 +360,17 @@ def run_entry(entry, seed=None):
     return outcome, untouched
 
 
+def process_settings():
+    """process-wide settings outside pyrepseq that its calls could leave changed (observed as drift; what counts is whether a
+    later result differs from the fresh-process result)"""
+    import logging
+    import warnings
+    import matplotlib
+    po = np.get_printoptions()
+    return dict(np_err=dict(np.geterr()), np_print=[po.get("precision"), po.get("threshold")], backend=str(matplotlib.get_backend()).lower(),
+                logging_disabled=int(logging.root.manager.disable))
+
+
 def default_state():
     """projection of the dict-valued default arguments and of the module-level parameter block"""
     import copy
@@ -362,4 +384,5 @@ def default_state():
         out[name] = [canon(d) for d in ds if isinstance(d, dict)]
     cal = getattr(nn, "_cal_params", None)
     out["_cal"] = None if cal is None else [len(cal[0]), int(cal[1])]
+    out["_env"] = process_settings()
     return copy.deepcopy(out)
